@@ -8,6 +8,9 @@ REG = {
  "C06": dict(cat="exploration", technique="runtime monitoring: tiling invariant + reference-lexer oracle over generated and exhaustively enumerated texts",
    text="Every token sequence returned by the real lexer::lex is checked by a tiling monitor (order, no overlap, character boundaries, one EOF, white-space-only gaps) on random hostile Unicode strings and on all strings up to a small length; on lexically valid text kinds, values and ranges are compared with an independent reference lexer written from the lexical grammar. Held = no refuting event in the executions produced.",
    note="Trusted: the reference lexer (harness/reflex.py) as reading of the SPL lexical grammar; the adaptor only serialises lexer::lex output.", ref="5/C06"),
+ "C07": dict(cat="exploration", technique="runtime monitoring: metamorphic oracle (batch lexer) + window-truthfulness equations, exhaustive over small texts and random chained histories",
+   text="The real lexer::update is run on every text up to length L over an alphabet covering every look-ahead class, every byte range and every replacement up to length R (complete enumeration inside the stated bounds), and on random 50-step chains over generated programs; each result is compared with lexer::lex of the new text and the change window is checked against the two window equations (ranges and attached errors).",
+   note="Trusted: lexer::lex as oracle for lexer::update (tied to the grammar by C06); enumeration bounds L<=3/4, R<=1/2 over 16 symbols.", ref="5/C07"),
 }
 NOT_YET = "check not yet built in this session (work in progress; see DESIGN.md section 5 for the planned monitor)"
 
